@@ -341,6 +341,10 @@ class RmsNorm(Op):
     def call_ref(self, a, cfg, grad_ref=False):
         x = a["input"]
         dims = tuple(range(-len(cfg["norm"]), 0))
+        if x.dtype in (torch.float16, torch.bfloat16) and hasattr(F, "rms_norm"):
+            # low precision: PyTorch's own op (it accumulates the squares in float32; the naive formula below overflows in
+            # float16 for |x| > 256 and cannot serve as "the PyTorch result" there)
+            return F.rms_norm(x, tuple(cfg["norm"]), a["weight"], cfg["eps"])
         # hand-written: x / sqrt(mean(x^2) + eps) * weight, in the input's own precision
         out = x / torch.sqrt(x.pow(2).mean(dims, keepdim=True) + cfg["eps"])
         if a["weight"] is not None:
